@@ -1,17 +1,24 @@
-"""Run every translator against /repo (used by setup; each check also runs its own)."""
+"""Run every translator against $VERIF_REPO (used by setup; each check also runs its own)."""
+import importlib
 import sys
 import traceback
 
-from tools.tr import tr_datachecker, tr_handlers, tr_wire
-
-ALL = [("G06_datachecker", tr_datachecker.write), ("G02_registry", tr_wire.write), ("G01_handlers", tr_handlers.write)]
+# (label, module, function): modules are imported lazily so that one broken translator cannot stop the others
+ALL = [("G06_datachecker", "tools.tr.tr_datachecker", "write"),
+       ("G02_registry", "tools.tr.tr_wire", "write"),
+       ("G01_handlers", "tools.tr.tr_handlers", "write"),
+       ("G09_rules", "tools.tr.tr_reclaim", "write"),
+       ("G15_consts", "tools.tr.tr_dht_consts", "write"),
+       ("G19_db", "tools.tr.tr_db", "write")]
 
 
 def main():
+    import logging
+    logging.disable(logging.CRITICAL)
     rc = 0
-    for name, fn in ALL:
+    for name, mod, fn in ALL:
         try:
-            fn()
+            getattr(importlib.import_module(mod), fn)()
         except Exception:
             traceback.print_exc()
             print("translator %s aborted" % name)
